@@ -313,7 +313,16 @@ fn cmd_replay(a: &Args) -> i32 {
     if !a.has("quiet") {
         println!("=== scenario ===\n{}", sc.describe());
     }
+    if a.has("trace-verbose") {
+        ev::TRACE_VERBOSE.store(1, std::sync::atomic::Ordering::Relaxed);
+    }
     let out = sim::run_scenario(&sc, erased);
+    if a.has("canon") {
+        for l in trace::canon_trace(&out.log, &out.ids) {
+            println!("{l}");
+        }
+        return 0;
+    }
     println!("=== event log ({} events, features {}) ===", out.log.len(), features_label());
     for l in trace::render(&out.log) {
         println!("{l}");
